@@ -22,7 +22,10 @@ RULE = ("programs x initial states of C02 run with detect_data_hazards=False: pe
         "code, fault cycle/address; stalls <= number of fetched ecalls (0 for ecall-free programs); and nop-padded programs "
         "(two nops behind every instruction) must match single-cycle mode (retire order, registers at every retirement, "
         "memory, output, exit code, counters). non-trivial = (prog) some consumer reads a stale value according to the "
-        "model, (pad) the unpadded program has a register dependency at distance < 3; distinct = hash(case)")
+        "model, (pad) the unpadded program has a register dependency at distance < 3; distinct = hash(case)"
+        ' The run under test shares the process with a later-created simulation WITH hazard detection that is stepped a'
+        'lternately; a reused simulation (ran a program, loaded again) is compared step by step with a fresh one put in'
+        'to the same registers and pc.')
 ASSUMPTIONS = [
     "the reference schedule with versioned register reads (DESIGN.md §1.2) states 'interlock-free pipeline'",
     "ecall output compared by parse-back",
